@@ -403,3 +403,29 @@ Definition handle (guard : bool) (ctx : fsctx) (meth : N) (read_only qbad : bool
   if meth =? 0 then get_handle ctx p0
   else if (meth =? 1) || (meth =? 2) then post_handle guard ctx read_only qbad p0
   else {| h_status := 405; h_read := None; h_touched := [] |}.
+
+(* ------------------------------------------------------------------ *)
+(* 6. the gRPC service: getRepoPath + getOrCreateStore (grpc.go) — every ChunkStoreService method resolves the
+      client-chosen repository to a store through DBCache.Get(repoPath) before doing anything else *)
+(* getRepoPath: repo_path if set, else repo_id.org + "/" + repo_id.repo_name *)
+Definition grpc_repo_path (use_id : bool) (p org name : bytes) : bytes :=
+  if use_id then org ++ c_slash :: name else p.
+
+(* the directory handed to LocalCSCache.Get -> MkDirs / NewLocalStore; None = the request is refused.
+   [guard] = false: the code as it is (no validation of the repository path);
+   [guard] = true: the proposed repair in getOrCreateStore — refuse absolute paths and paths whose Clean form is
+   ".." or begins with "../", use the cleaned path. *)
+Definition grpc_access (guard : bool) (root rp : bytes) : option bytes :=
+  if guard then
+    if is_prefix [c_slash] rp then None
+    else let p := clean rp in
+         if beq_bytes p s_dotdot || is_prefix [46; 46; 47] p then None else Some (fs_abs root p)
+  else Some (fs_abs root rp).
+
+(* (the call returned an error, directories created) *)
+Definition grpc_handle (guard : bool) (ctx : fsctx) (rp : bytes) : bool * list bytes :=
+  match grpc_access guard (fs_root ctx) rp with
+  | None => (true, [])
+  | Some d => if fs_bad d then (true, [])
+              else (false, if mem_bytes d (fs_dirs ctx) then [] else [d])
+  end.
